@@ -157,6 +157,23 @@ C_MUTANTS = [
     ('C01', ['anonymous member loop'], 'src/c/_cffi_backend.c',
      '                                           byteoffset + cfsrc->cf_offset,',
      '                                           cfsrc->cf_offset,'),
+    ('C12', ['_cffi_check_int'], 'src/cffi/_cffi_include.h',
+     '    ((got_nonpos) == (expected <= 0) &&                 \\', '    ((got_nonpos) == (expected < 0) &&                 \\'),
+    ('C12', ['_generate_cpy_const'], 'src/cffi/recompiler.py',
+     "                prnt('    n |= 2;')", "                prnt('    n |= 1;')"),
+    ('C12', ['realize_global_int'], 'src/c/realize_c_type.c',
+     '    switch (neg) {\n\n    case 0:\n        if (value <= (unsigned long long)LONG_MAX)',
+     '    switch (neg & 1) {\n\n    case 0:\n        if (value <= (unsigned long long)LONG_MAX)'),
+    ('C12', ['detect_custom_layout'], 'src/c/_cffi_backend.c',
+     '        if (sflags & SF_STD_FIELD_POS) {\n            PyErr_Format(FFIError,\n                         "%s: %s%s%s (cdef says',
+     '        if (sflags & SF_PACKED) {\n            PyErr_Format(FFIError,\n                         "%s: %s%s%s (cdef says'),
+    ('C12', ['b_complete epilogue'], 'src/c/_cffi_backend.c',
+     '        if (detect_custom_layout(ct, sflags, alignedsize,\n                                 totalsize, "wrong total size", "", "") < 0)',
+     '        if (detect_custom_layout(ct, sflags, totalsize,\n                                 totalsize, "wrong total size", "", "") < 0)'),
+    ('C12', ['read_global_var'], 'src/c/cglob.c',
+     '    return convert_to_object(data, gs->gs_type);', '    return convert_to_object(gs->gs_data, gs->gs_type);'),
+    ('C12', ['field loop, forced offset'], 'src/c/_cffi_backend.c',
+     '                byteoffset = foffset;\n            }', '            }'),
     ('C03', ['export table'], 'src/c/_cffi_backend.c',
      '    _cffi_to_c_i32,\n    _cffi_to_c_u32,', '    _cffi_to_c_u32,\n    _cffi_to_c_i32,'),
 ]
